@@ -25,7 +25,11 @@ def parseNodeTok (t : String) : Option Val :=
       | none => none
     | _ => none
 
-def zooIds : List Nat := [0, 1, 2, 3, 4, 5, 6, 7, 8, 9, 10, 11, 12, 13, 14, 15, 20, 21, 22, 23]
+def zooIds : List Nat := [0, 1, 2, 3, 4, 5, 6, 7, 8, 9, 10, 11, 12, 13, 14, 15, 16, 17, 20, 21, 22, 23]
+
+/-- zoo values whose String() / Error() method records an event in the probe -/
+def renderEventsDrv (v : Val) : List String :=
+  if v.tok == "z16" then ["!str"] else if v.tok == "z17" then ["!err"] else []
 
 def parseAnyTok (t : String) : Option Val :=
   let mk : Val := .atom { kind := .iface, isNil := false, tok := t }
@@ -60,8 +64,8 @@ structure Target where
   base : Int            -- the original returns base + numbers of its arguments
   pa : Bool             -- (*node, interface{}) → (*node, interface{}) shape
   name : String := "probe-target"
+  recvTok : String := "recv"
   org : Bool := false   -- leaf target mocked with an Origin placeholder: callbacks may call the original
-  loggerCalls : Bool := false
 
 def recvK : List Kind := [.ptr]
 
@@ -73,10 +77,13 @@ def target (t : String) : Option Target :=
   | "fp" => some { sig := { params := [.ptr, .iface], velem := none, nOut := 2, isMethod := false }, kind := .patch, base := 0, pa := true }
   | "fa" => some { sig := { params := [.iface], velem := none, nOut := 1, isMethod := false }, kind := .patch, base := 6000, pa := false }
   | "it" => some { sig := { params := [.int], velem := none, nOut := 1, isMethod := false }, kind := .patch, base := 0, pa := false,
-                   name := "strconv.Itoa", loggerCalls := true }
+                   name := "strconv.Itoa" }
   | "ow" => some { sig := { params := [], velem := none, nOut := 1, isMethod := false }, kind := .patch, base := 57, pa := false, org := true }
   | "ox" => some { sig := { params := [.int], velem := none, nOut := 1, isMethod := false }, kind := .patch, base := 12, pa := false, org := true }
   | "oz" => some { sig := { params := [.int], velem := none, nOut := 1, isMethod := false }, kind := .patch, base := 7, pa := false, org := true }
+  | "f0" => some { sig := { params := [.int], velem := none, nOut := 0, isMethod := false }, kind := .patch, base := 0, pa := false }
+  | "rs" => some { sig := { params := recvK ++ [.int, .str], velem := none, nOut := 1, isMethod := true }, kind := .patch, base := 9000, pa := false,
+                   recvTok := "recvS" }   -- receiver type whose String() calls the mocked method
   | "ms" => some { sig := { params := recvK ++ [.int, .str], velem := none, nOut := 1, isMethod := true }, kind := .patch, base := 4000, pa := false }
   | "mv" => some { sig := { params := recvK ++ [.str], velem := some .int, nOut := 1, isMethod := true }, kind := .patch, base := 5000, pa := false }
   | "ia" => some { sig := { params := recvK ++ [.int, .str], velem := none, nOut := 1, isMethod := true }, kind := .iface, base := 7000, pa := false }
@@ -89,7 +96,7 @@ def renderDrv (v : Val) : Option String :=
   match v with
   | .pack es => some ("[" ++ joinWith "_" (es.map (·.tok)) ++ "]")
   | .atom a =>
-    if a.tok == "z20" || a.tok == "z21" || a.tok == "z22" || a.tok == "z23" then none
+    if a.tok == "z20" || a.tok == "z21" || a.tok == "z22" || a.tok == "z23" || a.tok == "recvS" then none
     else match a.kind with
       | .int => some a.tok
       | .str => some (String.ofList (a.tok.toList.drop 1))
@@ -130,6 +137,7 @@ def parsePats (tg : Target) (s : String) : Option (List String) :=
     if k == .int || k == .str then (parseByKind k t).map Val.tok else none))
 
 def parseResults (tg : Target) (s : String) : Option (List Val) :=
+  if tg.sig.nOut = 0 then (if s == "-" then some [] else none) else
   let parts := s.splitOn ","
   parts.zipIdx.mapM (fun (t, i) =>
     if tg.pa then (if i == 0 then parseNodeTok t else parseAnyTok t) else (parseIntTok t).map intVal)
@@ -144,15 +152,16 @@ def parseCb (tg : Target) (t : String) : Option Cb :=
   else if t == "retn" then (if tg.pa then some { name := t, kind := .retn, k := 0 } else none)
   else none
 
-def recvAtom : Val := .atom { kind := .ptr, isNil := false, tok := "recv" }
+def recvAtomOf (tg : Target) : Val := .atom { kind := .ptr, isNil := false, tok := tg.recvTok }
 
 def parseOp (tg : Target) (ws : List String) : Option Op :=
   match ws with
   | ["apply", cb] => (parseCb tg cb).map Op.apply
+  | ["applybad"] => some Op.applyBad
   | ["ret", vs] => (parseResults tg vs).map Op.ret
   | ["when", a, vs] => do let p ← parsePats tg a; let r ← parseResults tg vs; pure (Op.when p r)
   | ["rets", seq] => ((seq.splitOn "|").mapM (parseResults tg)).map Op.rets
-  | ["call", a] => (parseArgs tg a).map (fun as => Op.call (if tg.sig.isMethod then recvAtom :: as else as))
+  | ["call", a] => (parseArgs tg a).map (fun as => Op.call (if tg.sig.isMethod then recvAtomOf tg :: as else as))
   | ["cancel"] => some Op.cancel
   | ["dbg", "on"] => some (Op.dbg .on)
   | ["dbg", "off"] => some (Op.dbg .off)
@@ -169,11 +178,12 @@ def parseCfg : String → Option Cfg
 | "off" => some .off | "debug" => some .debug | "trace" => some .trace | "env" => some .env | _ => none
 
 def origOf (tg : Target) (a : List Val) : List Val :=
+  if tg.sig.nOut = 0 then [] else
   if tg.pa then [.atom { kind := .ptr, isNil := false, tok := "n0" }, .atom { kind := .iface, isNil := false, tok := "torig" }]
   else [intVal (tg.base + sumV a)]
 
 def envOf (tg : Target) : Env :=
-  { sig := tg.sig, kind := tg.kind, name := tg.name, render := renderDrv, orig := origOf tg, loggerCalls := tg.loggerCalls }
+  { sig := tg.sig, kind := tg.kind, name := tg.name, render := renderDrv, orig := origOf tg, renderEvents := renderEventsDrv }
 
 def bits (ws : List Bool) : String :=
   if ws.isEmpty then "-" else String.ofList (ws.map (fun b => if b then '1' else '0'))
@@ -219,7 +229,7 @@ def handle0 (toks : List String) : Option String :=
       match parseCfg cfg with
       | some c =>
         let env : Env := { sig := { params := [], velem := none, nOut := 1, isMethod := false }, kind := .patch, name := excludeFunc,
-                           render := renderDrv, orig := fun _ => [intVal 0], loggerCalls := false }
+                           render := renderDrv, orig := fun _ => [intVal 0] }
         let ops : List Op := if fn.endsWith "ret" || fn.endsWith "as" then [.ret [intVal 1], .call [], .cancel]
                              else [.apply { name := "m", kind := .sum, k := 0 }, .call [], .cancel]
         let (_, s) := run env (initSt c) ops
@@ -231,7 +241,10 @@ def handle0 (toks : List String) : Option String :=
     | some c =>
       let env : Env := { sig := { params := [.str], velem := none, nOut := 1, isMethod := false }, kind := .patch, name := "lib",
                          render := renderDrv, orig := fun _ => [intVal 0] }
-      let (_, s) := run env (initSt c) [.apply { name := "m", kind := .sum, k := 0 }, .call [strAtom "sx"], .cancel]
+      -- `sites<N>`: N calls from N distinct source lines; everything else: one call
+      let n := if fn.startsWith "sites" then ((String.ofList (fn.toList.drop 5)).toNat?).getD 1
+               else if fn == "two.nested" then 2 else 1
+      let (_, s) := run env (initSt c) ([.apply { name := "m", kind := .sum, k := 0 }] ++ List.replicate n (.call [strAtom "sx"]) ++ [.cancel])
       some ("lib n=" ++ toString s.wraps.length ++ (if s.dead then " dead" else " r=m"))
     | none => some "bad-op"
   | "c19.lib" :: _ => some "bad-op"
